@@ -1,7 +1,7 @@
 SPECIFICATION Spec
 CONSTANTS
  Ent = {"e1", "e3"}
- AttrSeq <- XY
+ AttrSeq <- XC
  SVals <- OneS
  AVals <- OneA
  Vias = {"name", "get"}
@@ -19,6 +19,7 @@ INVARIANT StampsOrdered
 PROPERTY SnapshotImmutable
 PROPERTY ReadIsCurrentSnapshot
 PROPERTY MissingRaises
+PROPERTY VirtualFieldsWin
 PROPERTY AssignKeepsAttributes
 PROPERTY SetattrChangesOnlyThatAttribute
 PROPERTY NewAttributesReplaceAll
